@@ -191,6 +191,34 @@ class FileCtx:
         if missing:
             raise Undecided('items under contract not found in %s: %s' % (self.rel, sorted(missing)))
 
+    def guard_rest(self, why, skip=()):
+        """hash guards (contracts/trusted_hashes.json) for every method of every impl block of this file that the unit has no
+        entry for: code the unit does not verify but whose behaviour its trusted boundary (opaque accessors, stubs) stands for"""
+        import os
+        rf = RustFile(os.path.join(REPO, self.rel))
+        have = {}
+        for e in self.unit.entries:
+            if isinstance(e, ImplGroup) and e.file == self.rel:
+                have.setdefault(e.header, set()).update(m.name for m in e.methods)
+        n = 0
+        for mb in rf.code_finditer(r'(?m)^impl\b(?:\s*<[^{;]*?>)?\s+([^{;]+?)\s*\{', 0, len(rf.src)):
+            if rf.depth[mb.start()] != 0:
+                continue
+            header = ' '.join(mb.group(1).split())
+            bo = mb.end() - 1
+            region = (bo + 1, rf.match_brace(bo) - 1)
+            done = set()
+            for pat, names in have.items():
+                if re.fullmatch(pat, header):
+                    done |= names
+            for name in rf.list_fns(region, 1):
+                if name in done or name in skip or (header, name) in skip:
+                    continue
+                done.add(name)
+                self.guard(name, None, impl=re.escape(header), why=why)
+                n += 1
+        return n
+
     def guard(self, fn, expected, impl=None, why='', block=None):
         """text guard: a function that is NOT verified but whose (comment-stripped, whitespace-
         normalised) source text a lemma restates; if it changes the unit is undecided."""
